@@ -698,13 +698,16 @@ func pure(n *Node, env *Env) bool {
 		return p != nil
 	case "group":
 		return pure(n.Kids[0], env)
-	case "array":
+	case "array", "object":
 		for _, k := range n.Kids {
 			if !pure(k, env) {
 				return false
 			}
 		}
 		return true
+	case "unary":
+		// negation / logical not of a numeric literal cannot fault
+		return (n.Op == "-" || n.Op == "!") && n.Kids[0].Kind == "num"
 	}
 	return false
 }
